@@ -9,6 +9,8 @@ package props
 //   single-accept                   proposer x public key x signer x signature kind x header-id consistency
 //   compact                         SetCompact / GetCompact against an independent base-256 reference
 //   isproofed                       IsProofed(id, bits) => id-as-integer <= target(bits)
+//   validator-reorder               (c16_reorder_test.go) histories of changes of the ordered validator list, pure
+//                                   permutations included; producer side (CompeteMaster) vs the list in force
 //   pow-chain                       rapid: stub chain grown through the miner path, candidate blocks through
 //                                   CheckMinerMatch: accepted => hash <= target(bits) /\ ts >= parent ts /\ the
 //                                   accepted bits are unique per parent /\ verdict independent of instance state
@@ -2182,6 +2184,7 @@ func TestC16(t *testing.T) {
 	c := hx.NewCollector("C16", "exploration",
 		"(a) slot schedules: every configuration of a small parameter box (tdpos: period, block_num, proposer_num, alternate and term interval, schedule origin; xpoa: period, block_num, validator count) is built through the plugin constructor and minerScheduling is evaluated at every millisecond (several sub-millisecond phases) from the origin until the 4th term begins; the sequence of entitled (term,pos,slot) must be lexicographically non-decreasing, every slot one contiguous interval, and in every complete term every validator position must own exactly block_num slots. (b) acceptance: CheckMinerMatch (BFT off) for every validator, a stranger and the empty proposer on both sides of every slot boundary: accepted => proposer is the one the schedule names at the block's own timestamp; single: proposer x key x signer x signature kind x header id: accepted => configured miner and signature verifies (crypto/ecdsa); PoW: SetCompact/GetCompact against an independent base-256 reference, IsProofed => id <= target, and rapid-generated stub chains grown through the miner path with candidate blocks (bits, hash relative to target, timestamp relative to parent, signature): accepted => hash <= target of its bits, timestamp >= parent's, one bits value per parent equal to what the miner path prescribes, verdict identical on a restarted instance, and - for blocks of a generated side branch - identical on a node whose trunk is that branch (the target depends on the candidate's own ancestors only). Non-trivial = timestamp within 1 ms of a slot/term boundary; compact encoding with sign bit or size <= 3; id within 1 of the target; candidate timestamp at/before the parent's on a chain that reached a retarget; single case with at most one wrong ingredient. Distinct = hash of (configuration, boundary instant) / encoding / case input",
 		"validator sets are the configured initial ones (block height < start height + 3, so no vote / contract state is consulted), except in the validator-change sub-check: stub chains on which an election (tdpos, distinct or all-equal ballots) or an edit (xpoa) is recorded; with equal ballots only 'no two producers accepted for one instant by two nodes asked twice' is asserted, not who wins the tie",
+		"validator-reorder sub-check (c16_reorder_test.go): histories of changes of the ORDERED validator list - pure permutations of the list in force (every ordering for n=2,3, every rotation and swap of two members for n=4, enumerated; rapid: rotations, swaps, shuffles mixed with added / removed / replaced members, xpoa: 1-3 edits 1-5 blocks apart, so also an edit recorded before the previous one is in force; tdpos: an election won by the initial members in another rank order) - with one node per member and a stranger living through the history (xpoa: also nodes restarted at every height); every node is asked CompeteMaster at every tip height and, once the last change is in force, until every position of the list was observed: a call whose real-time bracket lies inside one slot must answer 'producer' iff the node is the member at that slot's position of the list in force for the next block (the wall clock only picks which slot is observed; calls that straddle two slots are counted, not judged), and CheckMinerMatch must accept a candidate for the next block stamped at that time iff it comes from that member. Non-trivial there = a node confirmed as producer in a position it received through a pure permutation",
 		"tdpos producer path: CompeteMaster (a real-time call: the wall clock picks the term that is scanned, no assertion depends on it) until the node is told it is the producer, then ProcessBeforeMiner at every half millisecond of two terms around that moment: allowed => the schedule names this node at that timestamp",
 		"chained-BFT is off (no bft_config): quorum-certificate checks belong to C14",
 		"the retarget rule itself is not prescribed by the statement: the check demands that the accepted bits are a function of the parent chain (unique, equal on miner and validator path, independent of instance state), not a particular formula",
@@ -2193,7 +2196,7 @@ func TestC16(t *testing.T) {
 	for _, sub := range []struct {
 		name string
 		run  func(*testing.T, *hx.Collector)
-	}{{"schedules", c16Schedules}, {"single", c16Single}, {"compact", c16Compact}, {"isproofed", c16IsProofed}, {"pow-chain", c16PowChain}, {"validator-change", c16Changes}, {"miner-path", c16MinerPath}, {"upgrade-proposals", c16Upgrades}} {
+	}{{"schedules", c16Schedules}, {"single", c16Single}, {"compact", c16Compact}, {"isproofed", c16IsProofed}, {"pow-chain", c16PowChain}, {"validator-change", c16Changes}, {"validator-reorder", c16Reorders}, {"miner-path", c16MinerPath}, {"upgrade-proposals", c16Upgrades}} {
 		start := time.Now() // reported only
 		sub.run(t, c)
 		t.Logf("C16 %s: %.1fs", sub.name, time.Since(start).Seconds())
